@@ -3,6 +3,7 @@ package consim
 import (
 	"bytes"
 	"fmt"
+	"os"
 	"math/big"
 	"strings"
 	"sync"
@@ -456,6 +457,7 @@ func (m *monitor) judgeRejections(n *simNode) {
 						// known finding (consequence of C11 committed-still-pending-after-apply-crash)
 						sig = "correct-proposal-rejected-committed-evidence-after-apply-crash"
 					}
+					outside := false
 					if strings.Contains(rj.err, "not greater than last block time") {
 						// known finding (WeightedMedian selects the entry below the middle of an odd-sized
 						// multiset): only when the spec's median of the very commit in the refused block
@@ -469,11 +471,34 @@ func (m *monitor) judgeRejections(n *simNode) {
 							if st.LastBlockHeight != rj.h-1 {
 								continue
 							}
+							var byzPow int64
+							for _, val := range st.LastValidators.Validators {
+								if m.s.isByzAddr(val.Address) {
+									byzPow += val.VotingPower
+								}
+							}
+							if 3*byzPow >= st.LastValidators.TotalVotingPower() {
+								// validator updates have taken the faulty validators to a third of the power or
+								// more: outside the fault model under which block time is defined
+								outside = true
+							}
+							if debugLog {
+								mt, below, _ := refMedianTime(blk.LastCommit, st.LastValidators)
+								fmt.Fprintf(os.Stderr, "TIMEREJ h=%d blk.Time=%v median=%v below=%v last=%v\n", rj.h, blk.Time, mt, below, st.LastBlockTime)
+								for i, cs := range blk.LastCommit.Signatures {
+									_, v := st.LastValidators.GetByIndex(int32(i))
+									fmt.Fprintf(os.Stderr, "   sig %d flag=%d power=%d ts=%v byz=%v\n", i, cs.BlockIDFlag, v.VotingPower, cs.Timestamp, m.s.isByzAddr(v.Address))
+								}
+							}
 							if mt, below, ok := refMedianTime(blk.LastCommit, st.LastValidators); ok && below.Equal(blk.Time) && !mt.Equal(below) && mt.After(st.LastBlockTime) {
 								sig = "correct-proposal-rejected:block-time-median-below-middle"
 							}
 							break
 						}
+					}
+					if outside {
+						e.Count("probe.block_time_refusal_with_faulty_power_ge_third")
+						continue
 					}
 					e.Fail("C06", sig, "node %d refused (prevoted nil for) the block that the correct validator %d proposed at height %d round %d: %s", n.idx, p.idx, rj.h, rj.r, rj.err)
 				}
@@ -792,4 +817,13 @@ func lockInc(recs []signRec, h int64, r int32) int {
 		}
 	}
 	return -1
+}
+
+func (s *sim) isByzAddr(a []byte) bool {
+	for _, b := range s.byz {
+		if bytes.Equal(b.addr, a) {
+			return true
+		}
+	}
+	return false
 }
